@@ -168,6 +168,14 @@ impl Monitor for C18 {
                 if w.bank.get(&posk).is_some() {
                     fail(acc, "closed_but_exists", "position account still exists after close".into());
                 }
+                // a bundled position is closed through its bundle (which clears the bundle's bit): the plain close
+                // instructions must not accept it with the bundle mint standing in for a position mint
+                if name != "close_bundled_position" {
+                    let bundle = crate::ix::build::pda_position_bundle(pp.position_mint).0;
+                    if obs.pre.data(&bundle).and_then(codec::PositionBundle::decode).is_some() {
+                        fail(acc, "bundled_position_closed_outside_its_bundle", format!("{name} closed bundled position {posk} of bundle mint {}: the bundle still marks the index as open", pp.position_mint));
+                    }
+                }
             } else if !is_empty(&pp) {
                 acc.count("closes_rejected_non_empty");
             }
